@@ -15,7 +15,18 @@
 #include <map>
 #include <string>
 #include <vector>
+#include <csetjmp>
+#include <csignal>
+#include <unistd.h>
 using namespace SimTK;
+// every fitter call is guarded by a 2 s alarm: a fit that does not return is itself a failure ("fit_never_returns")
+static sigjmp_buf JB; static void onAlarm(int) { siglongjmp(JB, 1); }
+static int hangs = 0;
+struct Hang {};
+template <class F> static SplineFitter<Real> guarded(F f) {
+    if (sigsetjmp(JB, 1)) { ++hangs; throw Hang(); }
+    alarm(2); SplineFitter<Real> r = f(); alarm(0); return r; }
+#define FIT(expr) guarded([&]() { return expr; })
 static unsigned long long S;
 static double u01() { S ^= S << 13; S ^= S >> 7; S ^= S << 17; return (double)(S >> 11) / 9007199254740992.0; }
 static double uni(double a, double b) { return a + (b - a) * u01(); }
@@ -30,7 +41,17 @@ static double maxabs(const Vector& v) { double m = 0; for (int i=0;i<v.size();++
 int main(int argc, char** argv) {
     S = 88172645463325252ULL ^ (unsigned long long)std::atoll(argv[1]) * 2654435761ULL; for (int i=0;i<8;++i) u01();
     const int N = std::atoi(argv[2]); if (argc > 3) verbose = 1;
-    double worst[4][3] = {{0}};
+    std::signal(SIGALRM, onAlarm);
+    double worst[4][3] = {{0}}; double worstMode[4][4] = {{0}};
+    // fixed witness (found by this search, seed 1): 24 points on a cubic, degree 7, fitFromErrorVariance.  The optimum is "as smooth
+    // as possible"; gcvspl_'s bracketing loop L60 doubles the parameter until the clamped value reaches 1/eps, which it cannot when el > 1.
+    { const int n = 24; const double xs[n] = {-0.031037967822022505,0.42042902555494799,0.69805556491354881,1.0284356790240818,1.5770960930138627,1.8788498180401692,2.4177161803298461,2.5448570020490875,2.7701297764100938,2.9501473620995391,3.2534280215401639,3.8081377125241285,3.9082668938619087,4.011375504567015,4.1929896712379815,4.4540635751379822,4.6289714278471603,4.8935712246350267,5.0267285261828887,5.5706334150621508,5.7240365834740965,6.0575893587938472,6.4055180102665155,6.9107883362850471};
+      const double ys[n] = {-105.32126822594708,-74.801177118513152,-59.401031858714838,-44.093444953579279,-25.072509971678382,-17.556182345401858,-8.375437259723741,-6.8776887198106351,-4.7430075986729392,-3.4551639490553585,-1.9673978204293829,-0.70949672435419953,-0.58854066910117231,-0.47375459904749828,-0.26543032186650761,0.14364494616358769,0.56160819803372863,1.5371892937335718,2.2305878784889299,6.9975770213928996,9.0390579051130651,14.790799062579479,23.007787491304093,39.749784545496873};
+      Vector x(n), y(n); for (int i=0;i<n;++i) { x[i]=xs[i]; y[i]=ys[i]; }
+      ++nEval;
+      try { FIT(SplineFitter<Real>::fitFromErrorVariance(7, x, y, 11.09256954072189)); }
+      catch (const Hang&) { fail("fit_never_returns", "witness: SplineFitter<Real>::fitFromErrorVariance(7, x, y, 11.09256954072189) did not return within 2 s: " + dump(7,x,y)); }
+      catch (const std::exception&) {} }
     for (int it = 0; it < N; ++it) {
         const int di = it % 4, degree = 2*di+1, m = di+1;
         const int n = irand(degree+1, it % 3 == 0 ? degree+4 : 30);
@@ -38,26 +59,29 @@ int main(int argc, char** argv) {
         Vector x(n), y(n); double t = uni(-2,2);
         for (int i=0;i<n;++i) { x[i] = t; t += uniform ? 0.25 : uni(0.1,0.6); }
         char b[300];
+        if (verbose && std::getenv("C41_TRACE")) { std::fprintf(stderr, "it %d degree %d n %d\n", it, degree, n); }
         try {
         // ---- (i) interpolation of random data
         { const double amp = std::pow(10.0, uni(-1,1)), w = uni(0.3,2);
           for (int i=0;i<n;++i) y[i] = amp*(std::sin(w*x[i]) + 0.3*uni(-1,1));
-          Spline f = SplineFitter<Real>::fitForSmoothingParameter(degree, x, y, 0).getSpline();
+          Spline f = FIT(SplineFitter<Real>::fitForSmoothingParameter(degree, x, y, 0)).getSpline();
           double e = 0; int wi = 0; for (int i=0;i<n;++i) { double d = std::fabs(f.calcValue(x[i]) - y[i]); if (d > e) { e = d; wi = i; } }
           ++nEval; worst[di][0] = std::max(worst[di][0], e/maxabs(y));
           if (!(e <= 1e-8*maxabs(y))) { std::snprintf(b,300,"interpolating fit misses control point %d by %.6g (data scale %.3g): ", wi, e, maxabs(y)); fail("fit_interpolation", b + dump(degree,x,y)); }
           // (iii) monotone residual in p, refit consistency, DOF mode
           double prevRss = -1;
           for (int s = 0; s < 3; ++s) { const double p = std::pow(10.0, -3.0 + 2*s);
-              SplineFitter<Real> fp = SplineFitter<Real>::fitForSmoothingParameter(degree, x, y, p); Spline g = fp.getSpline();
+              SplineFitter<Real> fp = FIT(SplineFitter<Real>::fitForSmoothingParameter(degree, x, y, p)); Spline g = fp.getSpline();
               double rss = 0; for (int i=0;i<n;++i) rss += square(g.calcValue(x[i]) - y[i]);
               ++nEval; if (rss < prevRss*(1-1e-9) - 1e-12*square(maxabs(y))) { std::snprintf(b,300,"residual sum of squares decreased from %.9g to %.9g when the smoothing parameter grew to %g: ", prevRss, rss, p); fail("fit_residual_monotone", b + dump(degree,x,y)); }
               prevRss = rss; }
           if (n > degree+2) {
-              SplineFitter<Real> fg = u01()<0.5 ? SplineFitter<Real>::fitFromGCV(degree, x, y) : SplineFitter<Real>::fitFromDOF(degree, x, y, uni(0.2,0.8)*(n-m));
+              const bool useGcv = u01()<0.5; const double dofT = uni(0.2,0.8)*(n-m);
+              SplineFitter<Real> fg = useGcv ? FIT(SplineFitter<Real>::fitFromGCV(degree, x, y)) : FIT(SplineFitter<Real>::fitFromDOF(degree, x, y, dofT));
               const double p = fg.getSmoothingParameter();
+              if (!useGcv) { ++nEval; if (!(std::fabs(fg.getDegreesOfFreedom() - dofT) <= 1e-3*(n-m))) { std::snprintf(b,300,"fitFromDOF(%.9g) reports %.9g degrees of freedom: ", dofT, fg.getDegreesOfFreedom()); fail("fit_dof_target", b + dump(degree,x,y)); } }
               if (p >= 0 && p < 1e30 && p == p) {
-                  SplineFitter<Real> fr = SplineFitter<Real>::fitForSmoothingParameter(degree, x, y, p);
+                  SplineFitter<Real> fr = FIT(SplineFitter<Real>::fitForSmoothingParameter(degree, x, y, p));
                   const Vector& c1 = fg.getSpline().getControlPointValues(); const Vector& c2 = fr.getSpline().getControlPointValues();
                   double e2 = 0; for (int i=0;i<n;++i) e2 = std::max(e2, std::fabs(c1[i]-c2[i]));
                   ++nEval; worst[di][2] = std::max(worst[di][2], e2/maxabs(c1));
@@ -72,21 +96,29 @@ int main(int argc, char** argv) {
           for (int i=0;i<n;++i) y[i] = P(x[i]);
           const double sc = std::max(maxabs(y), 1e-3);
           for (int mode = 0; mode < 4; ++mode) {
-              const double p = std::pow(10.0, uni(-4,3));
+              const double p = std::pow(10.0, uni(-4,1));
               if (mode >= 1 && n <= degree+2) continue;
               Spline f;
-              try { f = mode==0 ? SplineFitter<Real>::fitForSmoothingParameter(degree, x, y, p).getSpline()
-                      : mode==1 ? SplineFitter<Real>::fitFromGCV(degree, x, y).getSpline()
-                      : mode==2 ? SplineFitter<Real>::fitFromErrorVariance(degree, x, y, 1e-3*sc*sc).getSpline()
-                                : SplineFitter<Real>::fitFromDOF(degree, x, y, 0.5*(n-m)).getSpline(); }
+              if (verbose && std::getenv("C41_TRACE")) std::fprintf(stderr, "  poly mode %d p %g var %.17g %s\n", mode, p, 1e-3*sc*sc, mode==2 ? dump(degree,x,y).c_str() : "");
+              if (mode >= 1 && hangs >= 2) continue;      // after two fits that never returned, stop spending 2 s per case on the other modes
+              try { f = mode==0 ? FIT(SplineFitter<Real>::fitForSmoothingParameter(degree, x, y, p)).getSpline()
+                      : mode==1 ? FIT(SplineFitter<Real>::fitFromGCV(degree, x, y)).getSpline()
+                      : mode==2 ? FIT(SplineFitter<Real>::fitFromErrorVariance(degree, x, y, 1e-3*sc*sc)).getSpline()
+                                : FIT(SplineFitter<Real>::fitFromDOF(degree, x, y, 0.5*(n-m))).getSpline(); }
+              catch (const Hang&) { std::snprintf(b,300,"mode %d (1 fitFromGCV, 2 fitFromErrorVariance(%.17g), 3 fitFromDOF(%.17g)) did not return within 2 s: ", mode, 1e-3*sc*sc, 0.5*(n-m)); fail("fit_never_returns", b + dump(degree,x,y)); continue; }
               catch (const std::exception&) { continue; }
               double e = 0, wt = 0;
               for (int i=0;i<n-1;++i) for (int s=0;s<3;++s) { const double tt = x[i] + 0.5*s*(x[i+1]-x[i]); const double d = std::fabs(f.calcValue(tt) - P(tt)); if (d > e) { e = d; wt = tt; } }
-              ++nEval; if (mode==0) worst[di][1] = std::max(worst[di][1], e/sc);
-              if (!(e <= 1e-7*sc)) { std::snprintf(b,300,"mode %d (0 fixed p=%g, 1 GCV, 2 error variance, 3 DOF): data on a polynomial of degree %d is off by %.6g at x=%.17g (scale %.3g): ", mode, p, m-1, e, wt, sc); fail("fit_polynomial_reproduction", b + dump(degree,x,y)); }
+              ++nEval; if (mode==0) worst[di][1] = std::max(worst[di][1], e/sc); worstMode[di][mode] = std::max(worstMode[di][mode], e/sc);
+              // fixed parameter (1e-4..10), GCV and DOF modes: rounding level (measured worst 2e-8, 2e-15, 1e-14).  The error-variance mode
+              // drives the parameter to its upper clamp 1/(el*1e-15) on exact data, where the linear system is ill conditioned
+              // (measured worst 1.3e-2 of the data scale): only a loose tolerance is justified there.
+              if (!(e <= (mode==0 ? 1e-6 : mode==2 ? 5e-2 : 1e-8)*sc)) { std::snprintf(b,300,"mode %d (0 fixed p=%g, 1 GCV, 2 error variance, 3 DOF): data on a polynomial of degree %d is off by %.6g at x=%.17g (scale %.3g): ", mode, p, m-1, e, wt, sc); fail("fit_polynomial_reproduction", b + dump(degree,x,y)); }
           } }
+        } catch (const Hang&) { fail("fit_never_returns", "a fit on random data did not return within 2 s: " + dump(degree,x,y));
         } catch (const std::exception& e) { std::string msg = e.what(); for (size_t k=0;k<msg.size();++k) if (msg[k]=='\n') msg[k]=' '; fail("fit_throws", msg.substr(0,200) + ": " + dump(degree,x,y)); }
     }
+    if (verbose) for (int d=0;d<4;++d) std::printf("INFO degree %d polynomial reproduction worst by mode: %.3g %.3g %.3g %.3g\n", 2*d+1, worstMode[d][0], worstMode[d][1], worstMode[d][2], worstMode[d][3]);
     if (verbose) for (int d=0;d<4;++d) std::printf("INFO degree %d worst: interpolation %.3g, polynomial(fixed p) %.3g, refit %.3g\n", 2*d+1, worst[d][0], worst[d][1], worst[d][2]);
     std::printf("DONE %ld\n", nEval);
     return 0;
